@@ -777,7 +777,7 @@ func zzH_C15_forge_restart_chain_switch(t *zzT) {
 //zz:stub (*~/pkg/txpool.TransactionPool).GetProcessable zzfStubGetProcessable
 //zz:stub (*~/pkg/blockchain.Transaction).Size zzStubTxSize
 //zz:quick hbits=7 n=2 sizes=1 verdicts=3 senders=1 dims=0 assets=2 events=1 mapperm=0 budget=300s
-//zz:thorough hbits=7 n=2 sizes=0 verdicts=4 senders=0 dims=1 assets=2 events=2 budget=2400s
+//zz:thorough hbits=7 n=2 sizes=1 verdicts=4 senders=0 dims=1 assets=2 events=1 budget=1800s
 func zzH_C15_forge_header_static(t *zzT) {
 	n := t.Range("n", 0, t.Param("n", 2))
 	txs, snd := zzNewTxs(t, n)
